@@ -9,6 +9,7 @@ import (
 	"os/exec"
 	"path/filepath"
 	"runtime/debug"
+	"strconv"
 	"strings"
 	"time"
 
@@ -254,7 +255,11 @@ func init() { subs["crashchild"] = crashChild }
 
 // crashChild renders the probe given in the replay argument and says that it returned.
 func crashChild(seed uint64, n int, tier string, out string, replay string) {
-	debug.SetMaxStack(96 << 20) // a runaway recursion ends in seconds instead of filling a gigabyte
+	stackMB := 96 // a runaway recursion ends in seconds instead of filling a gigabyte
+	if v, err := strconv.Atoi(os.Getenv("CRASHCHILD_STACK_MB")); err == nil && v > 0 {
+		stackMB = v
+	}
+	debug.SetMaxStack(stackMB << 20)
 	var p fatalProbe
 	b, _ := os.ReadFile(replay)
 	json.Unmarshal(b, &p)
@@ -263,10 +268,17 @@ func crashChild(seed uint64, n int, tier string, out string, replay string) {
 		c.Templates = append(c.Templates, &chart.File{Name: name, Data: []byte(data)})
 	}
 	vals, err := chartutil.ToRenderValues(c, p.Values, chartutil.ReleaseOptions{Name: "r", Namespace: "n"}, nil)
+	var rendered map[string]string
 	if err == nil {
-		_, err = engine.Render(c, vals)
+		rendered, err = engine.Render(c, vals)
 	}
 	fmt.Printf("RETURNED err=%v\n", err != nil)
+	res := map[string]any{"out": rendered, "err": ""}
+	if err != nil {
+		res["err"] = err.Error()
+	}
+	b, _ = json.Marshal(res)
+	fmt.Printf("RESULT %s\n", b)
 }
 
 func fatalProbes(rep *Report, tmp string, seed uint64) {
